@@ -208,4 +208,22 @@ theorem pinned_stuck_is_stuck : ¬ pinnedStuck.final ∧ ¬ ∃ s', Step false p
   refine ⟨fun h => by simp [Par.final, pinnedStuck] at h, fun ⟨s', hs⟩ => ?_⟩
   cases hs <;> simp_all [pinnedStuck]
 
+/-! ## multiUse -/
+open P2.Proc in
+/-- C12 `multiuse_cleanup`: whatever the map of `multiUse` contains (any mix of valid and invalid entries, in any order),
+no consumer goroutine is left waiting — they are started only when every entry was found valid, and then the source is
+run (`P2.Oblig.multiUse_runs_what_it_started`: no return path between the two). -/
+theorem multiuse_cleanup (entries : List Bool) : (multiUse entries).clean = true := by
+  unfold multiUse MU.clean
+  split <;> simp
+
+open P2.Proc in
+/-- the seeded variant (consumers started while the entries are still being checked) strands a consumer as soon as an
+invalid entry follows a valid one -/
+theorem multiuse_eager_leaks : (multiUseEager [true, false] 0).clean = false := by decide
+
+open P2.Proc in
+/-- … and it is exactly that situation: with the invalid entry first, or none, the eager variant is clean too -/
+example : (multiUseEager [false, true] 0).clean = true ∧ (multiUseEager [true, true] 0).clean = true := by decide
+
 end P2.C12
